@@ -21,6 +21,12 @@ PATHO = {"path1": lambda n: "*a **a\n" * n + "b " + "a** a*\n" * n, "path2": lam
          "mixed": lambda n: "[ ( ]" + "[" * (20 * n) + ")" * (20 * n) + "\n"}
 
 
+def nest_class(o):
+    if o and set(o) <= set("*_"): return "emphasis-delimiter-run"
+    if o in ("[^", "[#"): return "nested-note-brackets"
+    return o.strip() or "indent"
+
+
 def nest_doc(g, n):
     o, c, s = g["o"], g["c"], g["shape"]
     if o in ("> ", "* ", "  "):        # block-level nesting: one line with n markers / n lines of growing indentation
@@ -36,7 +42,7 @@ def nest_doc(g, n):
 def run(tier, seed):
     chk = Check("C07", LEVEL, tier, seed)
     chk.assumptions += ["cost = executed basic blocks (clang trace-pc-guard), not seconds; the harness's own work is not counted", "conversions run on a thread with an 8 MiB stack; a fatal signal or watchdog expiry is an event the monitor refuses",
-                        "constant of proportionality 3; stack bound 4 MiB; stack growth between nesting 2000 and deeper nesting at most 256 KiB"]
+                        "seed documents containing {{TOC}} are not repeated (k copies ask for k tables of contents over k times the headings: quadratic output by request)", "constant of proportionality 3; stack bound 4 MiB; stack growth between nesting 2000 and deeper nesting at most 256 KiB"]
     mc = tlc.run("Cost", MC % (3, 12), workers=2); mc2 = tlc.run("Cost", MC % (1000, 1300), workers=2)
     if mc.violated or mc2.violated: raise FrameworkError("Cost: recursion structure law violated")
     chk.cov["states"] = mc.distinct + mc2.distinct; chk.cov["transitions"] = max(mc.generated + mc2.generated, 1)
@@ -70,6 +76,8 @@ def run(tier, seed):
     for nm in sorted(corp)[:: (14 if tier == "quick" else 2)]: seeds["corpus:" + nm] = corp[nm].decode("utf-8", "replace")
     PN = 150 if tier == "quick" else 400
     for nm, f in PATHO.items(): seeds["patho:" + nm] = f(PN)
+    # k copies of a document that asks for a table of contents contain k tables of k times as many entries: the OUTPUT is quadratic, by the document's own request
+    seeds = {nm: txt for nm, txt in seeds.items() if "{{TOC" not in txt}
     for nm, seedtxt in seeds.items():
         s = ["seg\tcost", "timeout\t120"]
         for k in ks:
@@ -97,12 +105,17 @@ def run(tier, seed):
             n += 1
             if kind == "nest":
                 trace.append(dict(e="nest", key="%s|%s|%d" % (what["o"], what["shape"], ev["fmt"]), null=ev["null"], maxdepth=ev["maxdepth"], stackkib=ev["stackkib"], depth=int(ev["src"][1:]), op=what["o"], shape=what["shape"], fmt=ev["fmt"], kblocks=ev["kblocks"]))
+                # the same measurement as a cost event: nesting n times deeper may cost at most proportionally more (base: nesting 2000)
+                dep = int(ev["src"][1:])
+                if dep < 10000000 and dep >= 2000 and dep % 2000 == 0 and what["shape"] != "siblings":
+                    trace.append(dict(e="cost", null=ev["null"], seed="nest:%s:%s:%s|%d" % (nest_class(what["o"]), what["o"], what["shape"], ev["fmt"]), k=dep // 2000, kblocks=ev["kblocks"], maxdepth=ev["maxdepth"]))
             else:
                 trace.append(dict(e="cost", null=ev["null"], seed="%s|%d" % (what, ev["fmt"]), k=int(ev["src"][1:]), kblocks=ev["kblocks"], maxdepth=ev["maxdepth"]))
         if r["status"] != "ok":
             last = [e for e in r["events"] if e.get("e") in ("aborted", "timeout")]
             sl = last[-1].get("sline", 0) if last else 0
-            trace.append(dict(e=r["status"], what=str(what), cmd=seg[sl - 1][:60] if 0 < sl <= len(seg) else "?"))
+            trace.append(dict(e=r["status"], what=str(what), cmd=seg[sl - 1][:60] if 0 < sl <= len(seg) else "?", op=(what.get("o", "") if isinstance(what, dict) else ""),
+                              shape=(what.get("shape", "") if isinstance(what, dict) else ""), san=r.get("san", "")[:3000]))
     acc, rejected, states, info = tlc.validate_trace("Cost", "CONSTANTS Limit = 1000\n MaxNest = 0\n Sim = FALSE\n Mode = \"t\"\nINIT TInit\nNEXT TNext\nPOSTCONDITION TraceAccepted\nCHECK_DEADLOCK FALSE\n", trace, max_rejects=80, timeout=1500, independent=True)
     chk.add("traces_validated_against_impl", len(segs) - len(rejected))
     chk.cov["evaluations"] = n; chk.cov["distinct_nontrivial"] = len(segs)
@@ -117,7 +130,15 @@ def run(tier, seed):
         if ev["e"] == "nest": key = "stack-proportional-to-nesting" if ev["shape"] == "balanced" else "depth-or-stack:%s:%s" % (ev["op"], ev["shape"]); desc = "nesting %r x %d (%s), format %d: recursion depth %d, stack %d KiB" % (ev["op"], ev["depth"], ev["shape"], ev["fmt"], ev["maxdepth"], ev["stackkib"])
         elif ev["e"] == "cost":
             b = [x for x in seg if x.get("e") == "cost" and x["seed"] == ev["seed"] and x["k"] == 1]
-            key = "superlinear:%s" % ev["seed"].split("|")[0]; desc = "seed %s: %d copies cost %d kblocks, one copy %s kblocks" % (ev["seed"], ev["k"], ev["kblocks"], b[0]["kblocks"] if b else "?")
+            key = "superlinear:%s" % (":".join(ev["seed"].split("|")[0].split(":")[:2]) if ev["seed"].startswith("nest:") else ev["seed"].split("|")[0]); desc = "seed %s: %d copies cost %d kblocks, one copy %s kblocks" % (ev["seed"], ev["k"], ev["kblocks"], b[0]["kblocks"] if b else "?")
+        elif ev.get("op") and ev["e"] == "timeout":
+            # a conversion of the nesting family that does not finish within the watchdog is a cost failure of that construct
+            key = "superlinear:nest:%s" % nest_class(ev["op"]); desc = "nesting %r (%s): conversion did not finish within the watchdog (%s)" % (ev["op"], ev["shape"], ev.get("cmd"))
+        elif ev.get("op") and ev["e"] in ("aborted", "killed"):
+            kd, fr = san_signature(ev.get("san", ""))
+            deep = "SEGV" in ev.get("san", "") and "zero page" not in ev.get("san", "")          # a fault away from address 0 on a thread whose stack is the limit: the stack ran out
+            key = "stack-proportional-to-nesting" if (deep and ev["shape"] in ("balanced", "open", "close", "interleaved")) else "aborted:nest:%s:%s" % (kd, fr)
+            desc = "nesting %r (%s): the process died during %s :: %s" % (ev["op"], ev["shape"], ev.get("cmd"), ev.get("san", "")[:300].replace("\n", " | "))
         elif str(ev.get("what", "")).startswith("cycle:"): key = "%s:%s" % (ev["e"], ":".join(ev["what"].split(":")[:2])); desc = "%s: conversion of a document whose notes refer to each other did not return (%s)" % (ev["what"], ev["e"])
         else: key = "%s:%s" % (ev["e"], ev.get("what", ""))[:120]; desc = "conversion did not return: %s during %s" % (ev["e"], ev.get("cmd"))
         if key in seen: seen[key] += 1; continue
